@@ -44,7 +44,8 @@ dst = os.path.join(HERE, "seeded", "%s-m%s" % (pid, k))
 os.makedirs(dst, exist_ok=True)
 shutil.copy(diff, os.path.join(dst, "patch.diff"))
 shutil.copy(demo, os.path.join(dst, "demo.py"))
-meta = {"property": pid, "summary": summary, "needs": needs,
+base = sh("git -C %s rev-parse --short HEAD" % wt).stdout.strip()
+meta = {"property": pid, "summary": summary, "needs": needs, "base_commit": base,
         "verified": {"repo_tests_with_change": t, "demo_exit_with_change": d1.returncode, "demo_exit_without_change": d0.returncode,
                      "demo_output_with_change": (d1.stdout + d1.stderr).strip()[:600],
                      "how": "git apply in a scratch worktree of /repo HEAD; /venv/bin/python -m pytest -q -p no:cacheprovider; /venv/bin/python demo.py; VERIF_REPO_DIR=<worktree> ./check <ID> %s" % tier},
